@@ -10,6 +10,7 @@ From Coq Require Import List Arith Bool ZArith Permutation Sorted.
 From ORatio Require Import smt.SatCoreBase smt.SatCoreSpec smt.SatCore smt.Rup
   proofs.SatCoreInv_Proofs proofs.SatCoreRun_Proofs proofs.SatCoreLog_Proofs proofs.SatCoreThm_Proofs proofs.SatCoreDb_Proofs proofs.SatCoreNoUb_Proofs proofs.SatCoreWl_Proofs proofs.SatCoreWlRun_Proofs proofs.SatCoreWlThm_Proofs proofs.SatCoreWlEx_Proofs proofs.Rup_Proofs.
 From ORatio Require Import proofs.SatCoreGuard_Proofs.
+From ORatio Require smt.Dl proofs.DlGuardChk_Proofs proofs.SatCoreDl_Proofs.
 Import ListNotations.
 
 (* (i) every value reported is a consequence of the axioms, the theory and the standing decisions *)
@@ -480,3 +481,25 @@ Theorem C07_no_undefined_behaviour_under_the_relative_contract :
          false.
 Proof. exact @w_no_ub. Qed.
 Print Assumptions C07_no_undefined_behaviour_under_the_relative_contract.
+
+(* ---------------------------------------------------------------------------------------------- *)
+(* The relative contract instantiated: sat_core + the GUARDED idl_theory (smt/DlAdapter.v, smt/DlGuard.v, proofs/SatCoreDl_Proofs.v;
+   what the guard tests and why (V1) is the soundness of the certificate check is said in the header of Properties_C08.v).
+   No hypothesis about the theory: after any history every value is entailed, modulo the integer models of the difference
+   constraints VD0 (T = the assignments realised by an integer valuation of the time points), by the axioms and the standing
+   decisions; reasons and learnt clauses are T-consequences of the axioms.  That the guard always succeeds on reachable states
+   is the run-time obligation of the C10 tie (`dl:guard-failed`). *)
+Theorem C07_idl_network_soundness_guarded :
+  forall (sat : bool) (VD0 : list (nat * Dl.cstr Z)) sort, sort_contract sort -> forall FUEL ops w0,
+  SatCore.run_ok sort (SatCoreDl_Proofs.idl_wthp sat VD0) (SatCoreDl_Proofs.idl_wthc VD0) (SatCoreDl_Proofs.idl_wpush VD0) (SatCoreDl_Proofs.idl_wpop sat VD0) FUEL ops (SatCore.init w0) = true ->
+  SatCore.ub (SatCore.run sort (SatCoreDl_Proofs.idl_wthp sat VD0) (SatCoreDl_Proofs.idl_wthc VD0) (SatCoreDl_Proofs.idl_wpush VD0) (SatCoreDl_Proofs.idl_wpop sat VD0) FUEL ops (SatCore.init w0)) = false ->
+  let s := SatCore.run sort (SatCoreDl_Proofs.idl_wthp sat VD0) (SatCoreDl_Proofs.idl_wthc VD0) (SatCoreDl_Proofs.idl_wpush VD0) (SatCoreDl_Proofs.idl_wpop sat VD0) FUEL ops (SatCore.init w0) in
+  Inv (DlGuardChk_Proofs.idl_T VD0) s /\
+  (forall p, value_lit s p = LT -> entails (DlGuardChk_Proofs.idl_T VD0) (axioms (log s) ++ units (decisions s)) [p]) /\
+  (forall p, value_lit s p = LF -> entails (DlGuardChk_Proofs.idl_T VD0) (axioms (log s) ++ units (decisions s)) [lneg p]) /\
+  (forall pre q suf c, trail s = pre ++ q :: suf -> nth (fst q) (reason s) None = Some c ->
+     exists rest, lits_of s c = q :: rest /\ (forall r, In r rest -> In (lneg r) suf \/ r = FALSE_lit) /\
+                  entails (DlGuardChk_Proofs.idl_T VD0) (axioms (log s)) (lits_of s c)) /\
+  (forall post c pre, log s = post ++ (0, c) :: pre -> entails (DlGuardChk_Proofs.idl_T VD0) (axioms pre) c).
+Proof. exact SatCoreDl_Proofs.idl_guarded_soundness. Qed.
+Print Assumptions C07_idl_network_soundness_guarded.
